@@ -84,3 +84,97 @@ def render(m, meta, trials=60, styles=("block", "kitty", "iterm2")):
 
 def render_block(m, meta):
     return render(m, meta, trials=150, styles=("block",))
+
+
+def forced_support_quirks(m, meta):
+    """fresh style classes (support status not yet determined) with support FORCED before the first instance is created, on each
+    terminal identity: the render still has to cover its rectangle in that terminal's quirk mode (WezTerm: the cells are erased
+    first, or text already there stays on top of the image)"""
+    import tests
+    import term_image.geometry as G
+    from term_image.image import KittyImage, ITerm2Image
+    from PIL import Image
+    rng = random.Random(4)
+    problems = []
+    tests.set_cell_size(G.Size(9, 18))
+    saved = {c: (c._supported, getattr(c, "_TERM", None), getattr(c, "_TERM_VERSION", None), c._forced_support) for c in (KittyImage, ITerm2Image)}
+    saved_kv = getattr(KittyImage, "_KITTY_VERSION", None)
+    try:
+        for cls, terms in ((ITerm2Image, (("wezterm", "20230712"), ("konsole", "22.12.3"), ("iterm2", "3.5.0"))), (KittyImage, (("kitty", "0.30.0"), ("konsole", "22.12.3")))):
+            for term in terms:
+                for forced in (True, False):
+                    tests.set_terminal_name_version(*term)
+                    cls._supported = None
+                    cls._TERM = ""
+                    if hasattr(cls, "_TERM_VERSION"):
+                        cls._TERM_VERSION = ""
+                    cls.forced_support = forced
+                    im = Image.new("RGB", (30, 20), (10, 200, 30))
+                    try:
+                        image = cls(im, width=6, height=3)
+                    except Exception as e:  # noqa: BLE001
+                        if forced or type(e).__name__ != "StyleError":       # (not forced: the stub terminal may well not answer the support query)
+                            problems.append({"style": cls.__name__, "terminal": term[0], "forced": forced, "construction": f"{type(e).__name__}: {e}"})
+                        continue
+                    W, H = image.rendered_size
+                    for meth in ("L", "W"):
+                        out = format(image, "1.1+" + meth)
+                        n0 = len(problems)
+                        _check((cls.__name__, term[0], "forced_support=%s set before the first instance" % forced, "+" + meth), out, W, H, rng, problems)
+                        if cls is ITerm2Image and term[0] == "wezterm" and "\x1b[%dX" % W not in out and len(problems) == n0:
+                            problems.append({"render": (cls.__name__, term[0], "forced_support=%s" % forced, "+" + meth),
+                                             "failed": "the cells are not erased before the image (WezTerm keeps the text under it)"})
+    finally:
+        for c, (sup, term, ver, forced) in saved.items():
+            c.forced_support = forced
+            c._supported, c._TERM = sup, term
+            if ver is not None:
+                c._TERM_VERSION = ver
+        if saved_kv is not None:
+            KittyImage._KITTY_VERSION = saved_kv
+        tests.set_terminal_name_version("kitty", "0.30.0")
+    return {"reproduced": bool(problems), "input": "fresh style classes, support forced (or not) before the first instance, every terminal identity", "observed": problems[:3]}
+
+
+def dynamic_size(m, meta):
+    """images with a DYNAMIC size setting (Size.AUTO / FIT / ORIGINAL / FIT_TO_WIDTH), sources smaller and larger than the frame:
+    the rectangle advertised by rendered_width / rendered_height / rendered_size (each computed on its own) is the rectangle the
+    render output occupies"""
+    import tests
+    import term_image.geometry as G
+    from term_image.image import BlockImage, KittyImage, ITerm2Image, Size
+    from PIL import Image
+    rng = random.Random(8)
+    problems = []
+    tests.set_cell_size(G.Size(9, 18))
+    tests.set_terminal_name_version("kitty", "0.30.0")
+    KittyImage._supported = ITerm2Image._supported = True
+    KittyImage._TERM, KittyImage._KITTY_VERSION = "kitty", (0, 30, 0)
+    ITerm2Image._TERM = "iterm2"
+    for cls in (BlockImage, KittyImage, ITerm2Image):
+        for src in ((12, 32), (40, 10), (300, 200), (30, 900), (1, 1), (79, 56)):
+            for setting in (Size.AUTO, Size.FIT, Size.ORIGINAL, Size.FIT_TO_WIDTH):
+                image = cls(Image.new("RGB", src, (9, 99, 199)))
+                try:
+                    image.size = setting
+                    H_ = image.rendered_height
+                    W_ = image.rendered_width
+                    WH = tuple(image.rendered_size)
+                    out = image._renderer(image._render_image, None)
+                except Exception as e:  # noqa: BLE001  (a size that does not fit the stub terminal)
+                    if type(e).__name__ == "InvalidSizeError":
+                        continue
+                    raise
+                if (W_, H_) != WH:
+                    problems.append({"style": cls.__name__, "source": src, "size setting": str(setting), "rendered_width, rendered_height": (W_, H_), "rendered_size": WH})
+                    continue
+                tag = (cls.__name__, "source %dx%d" % src, "size=%s" % setting.name, "advertised %dx%d" % (W_, H_))
+                if W_ <= 80:
+                    _check(tag, out, W_, H_, rng, problems)
+                elif out.count("\n") != H_ - 1:
+                    problems.append({"render": tag, "failed": ("newlines", out.count("\n"), "expected", H_ - 1)})
+            if problems:
+                break
+        if problems:
+            break
+    return {"reproduced": bool(problems), "input": "dynamic size settings x source sizes x styles: advertised rectangle vs the render output", "observed": problems[:3]}
